@@ -122,7 +122,8 @@ CHECKS.update({
             "Kronecker (arity 2, 3) samples add the inputs' assignments in the layers' unit order, _pad_samples fills the column of the layer's own variable "
             "(non-contiguous ids) and no other, no sampling method updates a possibly aliased tensor in place - for all F, K, N, D; the DISTRIBUTIONAL clause "
             "(frequencies converge) is statistical: a BOUNDED seeded stand-in (20000 samples per circuit vs exact probabilities, 6.5-sigma cell thresholds), "
-            "no contract within reach decides it; one recorded known finding (optimized Tucker layers refuse to sample)",
+            "no contract within reach decides it; the Tucker layer produced by optimize=True samples the drawn unit tuple in the forward pass's Kronecker order "
+            "(its refusal to sample was a recorded finding, repaired by a fix: commit); SamplingQuery glue (layer function, result layout, refusals)",
             PROOF_NOTE + " || " + BOUNDED_NOTE + "; torch's random number generator and Categorical sampler are trusted (assumed contract: draws lie in the support); "
             "the statistical threshold admits a false alarm probability < 1e-8 per run and is deterministic for a fixed VERIF_SEED",
             "contract obligations (z3) on the sampling layout + bounded seeded statistical check against exact probabilities", "4/C15"),
